@@ -72,9 +72,9 @@ CHECKS = {
 
 # additions of the fourth round (DESIGN.md sections 9.6 / 9.7)
 EXTRA = {
-    "C01": " Invocations stand in different item / expression contexts (generic fn, closure, method, trait default method, argument position, absolute path, with and without an expected type), corpora of odd seeds are edition-2021 crates; collect types also as bare aliases, `Option<Vec>` / `Result<Vec>` worlds so that `<|`, `<=`, `!>`, `<<<` follow a collect. Every async twin runs every plan twice: with sources that are ready at once and with pending points inside source futures and streams (same on both sides). Wrapper-capture twins: operands inside `>>>` groups touch caller locals like the hand-nested closure.",
+    "C01": " Invocations stand in different item / expression contexts (generic fn, closure, method, trait default method, argument position, absolute path, with and without an expected type), corpora of odd seeds are edition-2021 crates; collect types also as bare aliases, `Option<Vec>` / `Result<Vec>` worlds so that `<|`, `<=`, `!>`, `<<<` follow a collect. Every async twin runs every plan twice: with sources that are ready at once and with pending points inside source futures and streams (same on both sides). Wrapper-capture twins: operands inside `>>>` groups touch caller locals like the hand-nested closure. Fragment twins: `$e:expr` fragments that bind weaker than a method call as initial value, inside an operand and as operand; `let`-named branches over `||` / `&&` / struct-literal values; open wrappers ending in a bare `Some` / `Ok` path at a step end; lazy branches that are closure literals; an invocation evaluated during unwinding; a block operand inside a wrapper of an async spawn macro. Async try twins that fail while earlier branches are still pending (stuttering sources) are compared by prefixes.",
     "C02": " Every wrapper that can be empty is forced with an empty inner chain (also `=> >>>` on nested options / results / try-futures of try-futures and `?|> >>>` on iterators of options / streams of option-futures). Every async twin also runs with pending points inside its source futures / streams. Wrapper-capture twins (depth 1-2): a caller counter bumped inside a wrapper, a move-only caller local read in two wrappers and after the macro.",
-    "C07": " The comparison also runs under panic (+ failure) plans for the sequential and thread kinds ('same result' includes 'both panic'), and in a crate that knows the library only under another name (renamed dependency, decoy `join` module, forbid(unsafe_code), deny(warnings)). All 12 macros are also compiled, run and compared inside a scope that has its own items named like prelude items (`Ok`, `Some`, `Box`, `Vec`, `Send`, `Fn`, `format!`, `panic!`, ..).",
+    "C07": " The comparison also runs under panic (+ failure) plans for the sequential and thread kinds ('same result' includes 'both panic'), and in a crate that knows the library only under another name (renamed dependency, decoy `join` module, forbid(unsafe_code), deny(warnings)). All 12 macros are also compiled, run and compared inside a scope that has its own items named like prelude items (`Ok`, `Some`, `Box`, `Vec`, `Send`, `Fn`, `format!`, `panic!`, ..). Caller contexts: a `#![no_std]` library using the sequential macros must compile, an edition-2015 binary runs all four families and compares plain / spawn / alias; the caller's own traits named `FutureExt` / `StreamExt` / .. are called by path inside all async macros.",
     "C04": " The scope programs of the big corpus (caller variables named like branches, a sibling's name read by a plain closure of a later step) also run here.",
     "C05": " Every fifth unnamed program under `join!` / `try_join!` stands in a loop of the caller whose first values `continue` / `break` it; one `continue` is taken once per run and the invocation must complete in the caller's next iteration.",
     "C08": " Zoo twins under the thread kinds whose steps all have every branch active must not log a callback on the calling thread (also for steps opened by deferred operand-less operators behind lazy iterator closures); nested spawn twins run a second time from a differently named caller; `lazy_branches(false)` twins. 'The caller continues' covers the next step as well as the code after the macro: no step-k+1 event before the last chain event of a step-k thread or while a step-k gate is held; gated runs also under single-failure plans of the try kinds.",
@@ -83,8 +83,8 @@ EXTRA = {
     "C12": " `let mut` names are observed through `&mut`; names also together with custom joiners and lazy branches.",
     "C13": " Handlers (and operands) are also forwarded as `$e:expr` fragments of a user macro_rules (None-delimited groups). A handler that does not fit the macro kind must be a diagnostic; a generator panic is a violation whatever its message.",
     "C14": " The same structures are also parsed with operands as None-delimited groups (macro_rules fragments). Operands that start with a non-empty bracket group (`[f, g][1]`) are admitted behind every operator (`=>[]` is the collect operator only with empty brackets).",
-    "C16": " Sync `transpose_results(false)` programs are multi-step (steps continue from the unwrapped value); function joiners with lazy branches span several joined steps. Joiners are also written as function path, generic path, `receiver.method`, method on a call result, parenthesized closure and call expression (sync kinds, arity 2). Also bare closures (with and without `move`) as joiners.",
-    "C17": " Nested thread-spawning macros meet at a rendezvous (their branches must be alive together although nested); a 6- / 11-branch inner macro is nested in operand position of the outer kinds. The rustc corpus of C07 (own prelude names, lower-case constants named like internal bindings, `#![no_implicit_prelude]`) guards the hygiene repairs of section 5, rows 13 and 20.",
+    "C16": " Sync `transpose_results(false)` programs are multi-step (steps continue from the unwrapped value); function joiners with lazy branches span several joined steps. Joiners are also written as function path, generic path, `receiver.method`, method on a call result, parenthesized closure and call expression (sync kinds, arity 2). Also bare closures (with and without `move`) as joiners. Sync `transpose_results(false)` programs are ordinary multi-step programs of unequal depth (the joiner's output is the transposed Result in every step).",
+    "C17": " Nested thread-spawning macros meet at a rendezvous (their branches must be alive together although nested); a 6- / 11-branch inner macro is nested in operand position of the outer kinds. The rustc corpus of C07 (own prelude names, lower-case constants named like internal bindings, `#![no_implicit_prelude]`) guards the hygiene repairs of section 5, rows 13 and 20. Nested invocations that are forwarded, handler included, as raw tokens of a caller's macro_rules inside an operand / the handler of an outer invocation with its own handler.",
     "C19": " The bounds programs also come in wide (5 / 8 / 12-branch) forms. `??` callbacks that mutate caller locals are part of the caller-stack matrix.",
     "C18": " The first panic positions of every task-kind case are also run with tokio itself polling the macro's future (multi-thread runtime; next to a sibling that exhausts the coop budget).",
     "C20": " The second process of the cross-process comparison runs inside a hostile package directory (manifest with renamed tokio / futures / join, cargo config) as cwd and CARGO_MANIFEST_DIR. Rejected inputs count as invocations: their complete diagnostics are compared, including inputs with several different mistakes at once. A sample of the determinism workload (16 inputs quick / 320 thorough, each expanded sequentially and from 4 threads) also runs under valgrind memcheck (the expander's only `unsafe` read and its Send / Sync claims).",
